@@ -31,15 +31,17 @@ CHECKS = {
     "C08": ("Lean 4 proof (per event, from any state) + differential correspondence",
             "C08_pos/neg/centre/band/silent/pairing/not_both/release_axis: tracker and messages after each event of a key-emulating axis.", ""),
     "C09": ("Lean 4 proof (conversion + guard never panic) + differential correspondence + file mutation search (labelled fuzzing)",
-            "(theorems for the conversion model are being added; at present the obligations are the structural facts on the recover guards and the differential run)",
+            "C09_convert_total (the conversion after decoding returns a configuration or an error for every decoded structure, never a panic), C09_parse_total / C09_hidi_total (with the recover guard, every outcome of the third-party decoder — ok, error, panic — gives a configuration or an error), C09_guard_needed (without the guard a decoder panic escapes: the defect repaired in the repository), C09_source_facts (both entry points defer a recover — regenerated).",
             "go-toml decoding itself is third-party and only exercised (mutation search, labelled as fuzzing); hangs are caught by time-outs only."),
     "C10": ("Lean 4 proof over hand-written parser model + differential correspondence",
-            "(theorems for the parser model are being added; at present the decision rests on the differential run and the independent expectation evaluated on the implementation)", ""),
+            "C10_in_range (every accepted configuration satisfies Accepted: notes, controllers, offsets, velocity, default channel and default mapping in range — the hypothesis of the engine theorems), C10_scalars, C10_key_number / C10_key_name / C10_key_rejects, C10_rejects_mode / channel / velocity / default_mapping / action_table, C10_table_values (every bound value is the conversion of a file entry), C10_table_complete (an accepted table binds exactly the codes the file names, each once; a code named once is bound to the conversion of its own value), C10_mapping_keys_complete / C10_mapping_keys_sound (every key line of a mapping is in the accepted mapping under (sub-handler, code), and nothing else), C10_table_rejects.",
+            "The TOML decoder (go-toml, DisallowUnknownFields) is outside the model: unknown fields are decided by the differential run. Two spellings of one code in one table have no determined meaning (Go map iteration)."),
     "C11": ("Lean 4 proof (all strings) + exhaustive correspondence up to length 3/4",
             "C11_roundtrip, C11_only_names, C11_case, C11_rejects over all character lists.",
             "Go regexp/ToUpper on non-ASCII input is trusted (sampled)."),
     "C12": ("Lean 4 proof over loader model + differential correspondence on generated trees",
-            "(theorems for the loader model are being added; at present the decision rests on the differential run and the independent precedence rule evaluated on the implementation)", ""),
+            "C12_precedence_keyboard / C12_precedence_joystick (user exact > user default > factory exact > factory default, from the class's own directories), C12_unsupported, C12_user_over_factory, C12_not_found_iff, C12_isolation / C12_bad_entry_irrelevant (a file that fails to parse changes nothing for the others), C12_result_from_good, C12_never_panics, C12_missing_is_error.",
+            "File contents enter the model as parse outcomes; directory walking order is filepath.Walk's lexical order (compared differentially on generated trees incl. hidden files, nested directories, directories named *.toml)."),
     "C13": ("Lean 4 proof + differential correspondence",
             "C13_messages, C13_quiet, C13_state, C13_press_release_identity, C13_ext_irrelevant, C13_as_if_not_happened (any continuation produces the same output as without the panic); C13_all_messages / C13_all_trackers in every state of mixed histories (Props/C13mixed.lean).", ""),
     "C14": ("Lean 4 proof + differential correspondence",
